@@ -623,6 +623,27 @@ pub fn c05(ctx: &mut Ctx, tier: &str, seed: u64) {
             if (ta == tb) != eq || ta.partial_cmp(&tb) != Some(ord) || (ta.to_path_buf() == tb.to_path_buf()) != eq {
                 ctx.fail("typed-agrees-with-path", None, rp.clone(), format!("eq {} cmp {:?}", ta == tb, ta.partial_cmp(&tb)));
             }
+            // typed values against owned typed values and (UTF-8) against plain strings, both operand orders
+            {
+                let (tpa, tpb) = (ta.to_path_buf(), tb.to_path_buf());
+                if (ta == tpb) != eq || (tpb == ta) != eq || (tpa == tb) != eq || (tb == tpa) != eq {
+                    ctx.fail("typed-mixed-eq-agrees", None, rp.clone(), "TypedPath ~ TypedPathBuf".into());
+                }
+            }
+            if let (Ok(sa), Ok(sb)) = (std::str::from_utf8(a), std::str::from_utf8(b)) {
+                let ua = if win { Utf8TypedPath::windows(sa) } else { Utf8TypedPath::unix(sa) };
+                let ub = if win { Utf8TypedPath::windows(sb) } else { Utf8TypedPath::unix(sb) };
+                let (uab, ubb) = (ua.to_path_buf(), ub.to_path_buf());
+                if (ua == ub) != eq || (ua == ubb) != eq || (ubb == ua) != eq || (uab == ubb) != eq || ua.partial_cmp(&ub) != Some(ord) {
+                    ctx.fail("typed-mixed-eq-agrees", None, rp.clone(), "Utf8TypedPath ~ Utf8TypedPathBuf".into());
+                }
+                // against plain strings the typed types compare TEXT: all four impls must say the same
+                let text_eq = sa == sb;
+                let v = [ua == *sb, *sb == ua, ua == sb, sb == ua, uab == *sb, *sb == uab, uab == sb, sb == uab];
+                if v.iter().any(|x| *x != text_eq) {
+                    ctx.fail("typed-vs-str-impls-agree", None, rp.clone(), format!("{:?} text-equal {}", v, text_eq));
+                }
+            }
             if let (Ok(sa), Ok(sb)) = (std::str::from_utf8(a), std::str::from_utf8(b)) {
                 let (ueq, uord, uh) = if win {
                     let (x, y) = (Utf8WindowsPath::new(sa), Utf8WindowsPath::new(sb));
